@@ -298,8 +298,8 @@ Section Legacy.
 
   Lemma chain_sound lset s t maxv pw fuel :
     lset_ok lset s t = Some (maxv, pw) -> find_legacy ls (l_name lset) = Some lset ->
-    forall steps ops b, chain_to_ops (l_name lset) (sp_set_field s) maxv pw steps = Some ops ->
-      run_steps ldq stq cfg u ls (S fuel) steps (Some b) [0] None = lift_init (run_initops ldq stq cfg u ops b [0]).
+    forall p steps ops b, chain_to_ops (l_name lset) (sp_set_field s) maxv pw steps = Some ops ->
+      run_steps ldq stq cfg u ls (S fuel) steps (Some b) p None = lift_init (run_initops ldq stq cfg u ops b [0]).
   Proof.
     intros Hset Hfind. pose proof (lset_sound lset s t maxv pw Hset) as Hs.
     (* the set wrapper: shape facts *)
@@ -315,7 +315,7 @@ Section Legacy.
       inversion Hset; subst. apply andb_true_iff in E. destruct E as [_ Hg]. eauto. }
     destruct Hshape as [callee [b1 [b2 [Hsteps Hg]]]].
     assert (Hout : out_param lset = 0%nat) by (unfold out_param; rewrite Hsteps; reflexivity).
-    induction steps as [|st r IH]; intros ops b Hops; cbn [chain_to_ops] in Hops.
+    intros p. induction steps as [|st r IH]; intros ops b Hops; cbn [chain_to_ops] in Hops.
     - inversion Hops; subst. reflexivity.
     - destruct st as [| |v n| |cal args chk]; try discriminate.
       + destruct (chain_to_ops (l_name lset) (sp_set_field s) maxv pw r) as [ops'|] eqn:Er; [|discriminate].
@@ -333,8 +333,11 @@ Section Legacy.
         apply andb_true_iff in E. destruct E as [E Hc]. apply andb_true_iff in E. destruct E as [E Hv].
         apply andb_true_iff in E. destruct E as [E H32]. apply andb_true_iff in E. destruct E as [Hn Hlt].
         apply String.eqb_eq in Hn. subst cal. apply N.ltb_lt in Hlt, H32, Hv.
+        assert (Hc1 : (match a_src a1 with AConst _ _ => true | _ => false end) = true) by (destruct (a_src a1); [reflexivity|discriminate]).
+        assert (Hc2 : (match a_src a2 with AConst _ _ => true | _ => false end) = true)
+          by (destruct (a_src a1); [|discriminate]; destruct (a_src a2); [reflexivity|discriminate]).
         cbn [run_steps]. rewrite Hfind. rewrite Hout. cbn [Nat.eqb]. rewrite andb_true_r.
-        cbn [map].
+        cbn [map]. rewrite (const_arg_indep a1 p [0] Hc1), (const_arg_indep a2 p [0] Hc2).
         set (f := arg_value a1 [0]) in *. set (v := arg_value a2 [0]) in *.
         (* the wrapper's own run, as characterised by lset_sound *)
         pose proof (Hs (Some b) f v H32 Hv) as Hrun. unfold run_legacy in Hrun. rewrite Hout in Hrun.
@@ -349,11 +352,7 @@ Section Legacy.
         { rewrite Hsteps. destruct fuel; reflexivity. }
         rewrite Hfuel, Hrun.
         cbn [run_initops run_initop]. destruct (find_setter (u_setters u) (sp_set_field s)) as [stt|]; [|reflexivity].
-        cbn [map].
-        assert (Hc1 : (match a_src a1 with AConst _ _ => true | _ => false end) = true) by (destruct (a_src a1); [reflexivity|discriminate]).
-        assert (Hc2 : (match a_src a2 with AConst _ _ => true | _ => false end) = true)
-          by (destruct (a_src a1); [|discriminate]; destruct (a_src a2); [reflexivity|discriminate]).
-        fold f v.
+        cbn [map]. fold f v.
         destruct (run_setter ldq stq cfg (u_tables u) stt (Some b) [0; f; v]) as [[b'|]| |] eqn:Ers; cbn [lift_init]; try reflexivity.
         * apply (IH ops' b' eq_refl).
         * exfalso. exact (run_setter_some _ _ _ _ Ers).
@@ -369,20 +368,21 @@ Section Legacy.
 
   Theorem linit_chain_sound l lset s t ops :
     linit_chain_ops l lset s t = Some ops -> find_legacy ls (l_name lset) = Some lset ->
-    run_legacy ldq stq cfg u ls l None [0] None = Ok (LEinval, None, None) /\
-    forall b, run_legacy ldq stq cfg u ls l (Some b) [0] None = lift_init (run_initops ldq stq cfg u ops b [0]).
+    forall x, x < 2 ^ 8 ->
+    run_legacy ldq stq cfg u ls l None [0; x] None = Ok (LEinval, None, None) /\
+    forall b, run_legacy ldq stq cfg u ls l (Some b) [0; x] None = lift_init (run_initops ldq stq cfg u ops b [0]).
   Proof.
     unfold linit_chain_ops. destruct (lset_ok lset s t) as [[maxv pw]|] eqn:Eset; [|discriminate].
     destruct (guards_ok 0 0 [0%nat] (l_guards l) && Nat.eqb (out_param l) 0) eqn:E; [|discriminate].
     apply andb_true_iff in E. destruct E as [Hg Hout]. apply Nat.eqb_eq in Hout.
-    intros Hops Hfind.
-    assert (H32 : nth 1 [0] 0 < 2 ^ 32) by (cbn; lia).
+    intros Hops Hfind x Hx.
+    assert (H32 : nth 1 [0; x] 0 < 2 ^ 32) by (cbn [nth]; apply N.lt_le_trans with (2 ^ 8); [exact Hx|apply N.pow_le_mono_r; lia]).
     split.
-    - unfold run_legacy. rewrite Hout. destruct (guards_ok_sound 0 0 _ _ None [0] None Hg H32) as [Hstd Hfire].
+    - unfold run_legacy. rewrite Hout. destruct (guards_ok_sound 0 0 _ _ None [0; x] None Hg H32) as [Hstd Hfire].
       rewrite Hstd, Hfire. reflexivity.
     - intros b. unfold run_legacy. rewrite Hout.
-      destruct (guards_ok_sound 0 0 _ _ (Some b) [0] None Hg H32) as [Hstd Hfire].
+      destruct (guards_ok_sound 0 0 _ _ (Some b) [0; x] None Hg H32) as [Hstd Hfire].
       rewrite Hstd, Hfire. cbn [existsb cond is_none orb].
-      apply (chain_sound lset s t maxv pw 1 Eset Hfind _ _ b Hops).
+      apply (chain_sound lset s t maxv pw 1 Eset Hfind _ _ _ b Hops).
   Qed.
 End Legacy.
